@@ -409,6 +409,8 @@ def string_form_clauses(ctx, facts, roles, ts, cfg, K="K4"):
                         c_ = strip_refs(x[2][1])
                         if c_[0] == "agg" and c_[1].get("agg") == "Closure":
                             clos.append(c_[1]["closure"])
+                        elif c_[0] == "const" and "fn" in c_[1] and (c_[1]["fn"].get("resolved") or c_[1]["fn"]).get("local"):
+                            clos.append((c_[1]["fn"].get("resolved") or c_[1]["fn"])["key"])      # `.map(element_to_string)`: a private fn item per element
                     x = strip_refs(x[2][0])
                 from_payload = x[0] == "field" and x[1][0] == "downcast" and x[1][2] == "Array" and strip_refs(x[1][1]) == ("arg", 1)
                 good = from_payload and len(clos) == 1 and [c for c in chain if c not in ("deref", "into_iter", "iter")] == ["collect", "map"]
@@ -435,8 +437,9 @@ def string_form_clauses(ctx, facts, roles, ts, cfg, K="K4"):
                 continue
             ctx.check(bool(good) and sep == ",", K + ".array-join", key, "the string form of an array is %s (separator %r)" % (show_expr(r)[:80], sep), where=ts.where(), fn=ts.key, nontrivial=True, sample={"separator": sep})
             if elem_clos is not None:
+                ep = 2 if elem_clos.kind == "closure" else 1       # the element: a closure's first parameter / a fn item's parameter
                 for ev in facts.variants(VALUE):
-                    bl, dec = elem_clos.specialize(lambda e, a, _v=ev: _v if (a == VALUE and e == ("arg", 2)) else None)
+                    bl, dec = elem_clos.specialize(lambda e, a, _v=ev: _v if (a == VALUE and e == ("arg", ep)) else None)
                     with elem_clos.restricted(bl):
                         rr = strip_refs(elem_clos.trace(0))
                     if ev == "Null":
@@ -444,5 +447,5 @@ def string_form_clauses(ctx, facts, roles, ts, cfg, K="K4"):
                         got = const_value(a[1]) if a is not None and a[0] == "const" else ("" if rr[0] == "call" and rr[1] and rr[1]["path"] == "std::string::String::new" else None)
                         ctx.check(got == "", K + ".array-element", "a null element contributes \"\" (%s)" % cfg, "a null array element contributes %r" % (got if got is not None else show_expr(rr)[:60]), where=elem_clos.where(), fn=elem_clos.key, nontrivial=True)
                     else:
-                        good = rr[0] == "call" and rr[1] and rr[1].get("key") == ts.key and strip_refs(rr[2][0]) == ("arg", 2)
+                        good = rr[0] == "call" and rr[1] and rr[1].get("key") == ts.key and strip_refs(rr[2][0]) == ("arg", ep)
                         ctx.check(good, K + ".array-element", "a %s element contributes its own string form (%s)" % (ev, cfg), "a %s element contributes %s" % (ev, show_expr(rr)[:80]), where=elem_clos.where(), fn=elem_clos.key, nontrivial=True)
